@@ -39,7 +39,7 @@ use swimos_form::write::StructuralWritable;
 use swimos_model::{Item, Value};
 use swimos_recon::parser::{parse_recognize, parse_recon_document, parse_text_token, AsyncParseError, RecognizerDecoder, Span};
 use swimos_recon::{print_recon, print_recon_compact, print_recon_pretty, WithLenRecognizerDecoder, WithLenReconEncoder};
-use tokio_util::codec::Encoder;
+use tokio_util::codec::{Decoder, Encoder};
 
 use crate::core::log::EventLog;
 use crate::core::rng::{fnv1a, Rng};
@@ -215,6 +215,8 @@ struct Ctx<'a> {
     /// (label, text) pairs whose chunkings were already tested in this case.
     seen: BTreeSet<(String, String)>,
     progress: Arc<AtomicU32>,
+    /// The text tested before the current one (any label): the frame that precedes it in the reuse check.
+    prev_text: Option<Vec<u8>>,
 }
 
 impl<'a> Ctx<'a> {
@@ -478,6 +480,52 @@ where
         }
     }
     ctx.count("cuts_tested", tested);
+    // Reuse: the product keeps one decoder per channel and carries on after a frame that failed to parse. The
+    // frame before (the previously tested text, well-formed or not, decoded as the same type) must not change
+    // what this frame decodes to.
+    if let Some(prev) = ctx.prev_text.replace(bytes.to_vec()) {
+        let mut data = BytesMut::from(&with_len_frame(&prev)[..]);
+        data.extend_from_slice(&framed);
+        let expected = &oneshot;
+        let r = catch_unwind(AssertUnwindSafe(|| {
+            let mut d = WithLenRecognizerDecoder::new(T::make_recognizer());
+            // First frame: whatever it yields.
+            let first_was_error = match d.decode(&mut data) {
+                Ok(_) => false,
+                Err(_) => true,
+            };
+            let second = match d.decode(&mut data) {
+                Ok(Some(v)) => Ok(Some(v)),
+                Ok(None) => d.decode_eof(&mut data),
+                Err(e) => Err(e),
+            };
+            (first_was_error, second, data.len())
+        }));
+        ctx.count("reuse_checks", 1);
+        match r {
+            Err(p) => ctx.violate("C09.no_panic", "reuse:WithLenRecognizerDecoder", format!("[{label}] previous frame=`{}` text=`{}` panic: {}", show(&String::from_utf8_lossy(&prev), 120), show(text, 120), show(&panic_message(p), 200))),
+            Ok((first_err, second, _left)) => {
+                if first_err {
+                    ctx.count("reuse_after_error", 1);
+                }
+                let cls = match (&second, expected) {
+                    (Ok(Some(v)), Ok(e)) => if eq(v, e) { None } else { Some("value_differs") },
+                    (Ok(Some(_)), Err(_)) => Some("ok_where_oneshot_errs"),
+                    (Ok(None), Ok(_)) => Some("no_value_where_oneshot_ok"),
+                    (Err(_), Ok(_)) => Some("err_where_oneshot_ok"),
+                    (Ok(None), Err(_)) | (Err(_), Err(_)) => None,
+                };
+                if let Some(c) = cls {
+                    let after = if first_err { "after_error" } else { "after_ok" };
+                    ctx.violate(
+                        "C09.reuse",
+                        &format!("WithLenRecognizerDecoder:{c}:{after}"),
+                        format!("[{label}] previous frame=`{}` text=`{}`: on a decoder that has already decoded the previous frame this frame gives {}, alone it gives {}", show(&String::from_utf8_lossy(&prev), 120), show(text, 120), match &second { Ok(Some(v)) => show_dbg(v, 120), Ok(None) => "no value".into(), Err(e) => format!("error {}", show(&e.to_string(), 120)) }, match expected { Ok(v) => show_dbg(v, 120), Err(e) => format!("error {}", show(e, 80)) }),
+                    );
+                }
+            }
+        }
+    }
     let res = match &oneshot {
         Ok(v) => format!("ok {}", show_dbg(v, 120)),
         Err(e) => format!("err {}", show(e, 80)),
@@ -924,6 +972,7 @@ fn execute_inner(sc: &ReconScenario, keep_log: bool, progress: Arc<AtomicU32>) -
         step: 0,
         seen: BTreeSet::new(),
         progress,
+        prev_text: None,
     };
     for case in &sc.cases {
         run_case(&mut ctx, case);
